@@ -497,6 +497,20 @@ theorem c15_replaceData_same_system {ev : Ev S B} (hid : IdLaws ev) {v r : Vec S
 
 end
 
+/-! ### link to the string layer: an assignment is classified as a setter step only when the class has the group -/
+
+theorem c15_stepOfSet_hasGroup {S : Type} {ty : VT} (hw : WF ty) {name : String} {a a' : S} {c : CName}
+    (h : stepOfSet ty name a = .set c a') : c.hasGroup ty ∧ a' = a := by
+  unfold stepOfSet at h
+  generalize setterOfName ty.mom name = o at h
+  generalize isReadOnlyProp ty name = b at h
+  obtain ⟨be, mom, az, lon, tmp⟩ := ty
+  cases o with
+  | none => cases b <;> simp at h
+  | some c' =>
+    cases b <;> cases c' <;> cases lon <;> cases tmp <;> simp [VT.dim, WF] at h hw <;>
+      (obtain ⟨rfl, rfl⟩ := h) <;> simp [CName.hasGroup, CName.grp]
+
 /-! ### the generated executable compute layer satisfies the identity laws -/
 
 section
@@ -552,6 +566,21 @@ example {B : Type} (ev : Ev S B) (K : Consts S) (A : Arith S) (x y z t a f : S) 
 example {B : Type} (ev : Ev S B) (K : Consts S) (A : Arith S) (x y z t f g : S) (o : Vec S) :
     (runFinal ev K A (ex4 x y z t) [.iopS .mul f, .iopV .sub o, .iopS .div g]).ty = (ex4 x y z t).ty :=
   (c15_run_iop_ty _ _ (by simp [Step.isIop])).2
+
+/-- `v *= f` on the generated compute layer: the functional result `v * f`, and the object afterwards -/
+example (x y z t f : S) (K : Consts S) (A : Arith S) :
+    iopResult (execEv S) K A (ex4 x y z t) (.iopS .mul f) = .ok (.vec (ex4 (x * f) (y * f) (z * f) (t * f))) ∧
+    step (execEv S) K A (ex4 x y z t) (.iopS .mul f) = (ex4 (x * f) (y * f) (z * f) (t * f), none) := ⟨rfl, rfl⟩
+
+/-- `v *= o` (a vector) raises TypeError and leaves the object unchanged -/
+example (x y z t : S) (o : Vec S) (K : Consts S) (A : Arith S) :
+    step (execEv S) K A (ex4 x y z t) (.iopV .mul o) = (ex4 x y z t, some .typeError) := rfl
+
+/-- well-formedness is needed for the dimension invariant: on the (unreachable) type with a temporal but no
+longitudinal coordinate, `v.z = a` would add a group -/
+example {B : Type} (ev : Ev S B) (x y t a : S) :
+    ∃ v', setC ev .z a ⟨{ mom := false, az := .xy, lon := none, tmp := some .t }, [x, y, t]⟩ = .ok v' ∧
+      v'.ty.dim = 4 := ⟨_, rfl, rfl⟩
 
 end
 end VG
